@@ -85,7 +85,8 @@ TEXT = {
  "C12": {
   "level": "Theorem C12_refines: for every packet type and every finite history of its setters, the accessors of the model equal those of an independent "
            "record-of-fields specification (Spec/Fields.v) in which flags are functions of the stored values; proved by a simulation (C12_step) whose "
-           "bit-level lemmas cover all flag-byte states. History correspondence ties the model's one-line setters to the Go ones on every run.",
+           "bit-level lemmas cover all flag-byte states. C12_any_state_frame / _reads_back / _flags: on ANY packet value (also one decoded from the wire) a setter leaves every accessor it does "
+           "not name unchanged, its own accessor returns the argument, and the derived flags follow the value whatever the flag byte held before. History correspondence ties the model's one-line setters to the Go ones on every run.",
   "note": NOTE,
   "technique": "Coq refinement proof (simulation relation, finite case analysis of flag bytes) + history correspondence + last-write-wins oracle",
  },
